@@ -55,6 +55,9 @@ def cases(tier, seed):
     out = []
     for m in ("G1", "G3", "rd40", "G5") if tier == "quick" else ("G1", "G2", "G3", "G4", "G5", "rd40", "rd120_2", "ann39", "ann412", "hex34s"):
         out.append(dict(mesh=m, seed=seed, areas="one", history="smoothed_derived"))
+    for m in ("G1", "G5", "rd40") if tier == "quick" else ("G1", "G2", "G3", "G5", "rd40", "ann39", "hex34s"):
+        for hist in ("reloaded", "reloaded_compressed"):
+            out.append(dict(mesh=m, seed=seed, areas="one", history=hist))
     for m in mesh_names(tier):
         for sd in (seed,) if tier == "quick" else (seed, seed + 1):
             for ap in W_ALPH:
@@ -139,6 +142,15 @@ def run_case(case):
             now = getattr(base.edge_mesh, nm[5:]) if nm.startswith("edge.") else getattr(base, nm)
             if not np.array_equal(np.asarray(now), old):
                 res.violate("mesh-changed-by-deriving-a-smoothed-mesh", attribute=nm, detail={"mesh": case["mesh"]})
+    if case.get("history") in ("reloaded", "reloaded_compressed"):
+        # the mesh is one that was written to disk and read back (stored arrays / recomputed from the stored triangulation)
+        import h5py
+        from tdgl.finite_volume import Mesh
+
+        with h5py.File("mesh.h5", "w") as f:
+            base.to_hdf5(f.create_group("mesh"), compress=(case["history"] == "reloaded_compressed"))
+        with h5py.File("mesh.h5", "r") as f:
+            base = Mesh.from_hdf5(f["mesh"])
     n, m = len(base.sites), len(base.edge_mesh.edges)
     rng = np.random.default_rng([case["seed"], 303])
     pats_a = {"one": np.ones(n), "alt": np.where(np.arange(n) % 2, 0.5, 2.0), "rnd": 10 ** rng.uniform(-1, 1, n)}
